@@ -105,8 +105,12 @@ def plan_jobs(prop, tier, rnd):
     elif prop == "C15":
         slices = [("M", 3), ("Y", 4), ("B", 3), ("F", 3), ("V", 3)]
     else:
-        slices = [("Y", 4), ("T", 3), ("B", 3), ("F", 3), ("C", 3), ("Z", 3)]
+        slices = [("Y", 4), ("T", 3), ("B", 3), ("F", 3), ("C", 3), ("Z", 3), ("V", 3)]
     pools, stats = histories_for(slices, rnd)
+    if prop == "C20" and "V" in pools:
+        # (which value the fee column of the JP sheets shows when an exchange-supplied fiat fee differs from crypto fee x price is not stated by
+        # the property: such rows are left out)
+        pools["V"] = [h for h in pools["V"] if not any(x["cls"] == "out" and x["fee"] > 0 and x["vfee"] >= 0 for x in h)] or pools["V"]
     names = [s for s, _ in slices]
     jobs = []
     n = {"C13": 110, "C19": 130, "C14": 110, "C15": 120, "C20": 100, "C05": 60, "C06": 60, "C07": 60}[prop] * (1 if q else 12)
